@@ -237,6 +237,7 @@ func genC02(w *World, res *CheckResult) {
 	}
 	genInRange(w, res)
 	genInArray(w, res)
+	genConstRange(w, res)
 	verifyInit(w, res, "optimizer")
 	genPipelineOrder(w, res)
 	res.Assumptions = append(res.Assumptions,
@@ -252,6 +253,40 @@ func init() {
 // c02Replay: compiles F(a op b), F taking the literal type of the cell, with
 // the optimizer on and off, and compares the results on the real library.
 func c02Replay(o *Obligation, dir string) (string, bool) {
+	if strings.HasPrefix(o.Name, "optimizer.constRange/") {
+		src := `package expr_test
+
+import (
+	"fmt"
+	"testing"
+
+	"github.com/antonmedv/expr"
+)
+
+// replay of obligation ` + o.Name + `
+func TestVerifReplay(t *testing.T) {
+	for _, code := range []string{"5..5", "len(3..3)", "7..2", "len(1..1000)", "(2+3)..(10-5)", "len(1..1000000)", "len(1..600000) + len(1..600000)"} {
+		run := func(opt bool) string {
+			p, err := expr.Compile(code, expr.Optimize(opt))
+			if err != nil {
+				return "compile error"
+			}
+			out, err := expr.Run(p, nil)
+			if err != nil {
+				return "run error"
+			}
+			return fmt.Sprint(out)
+		}
+		on, off := run(true), run(false)
+		if on != off {
+			t.Fatalf("VIOLATED: %s gives %q with the optimizer and %q without", code, on, off)
+		}
+	}
+	t.Logf("clause holds on these inputs")
+}
+`
+		return runReplay(o, dir, ".", src)
+	}
 	if strings.HasPrefix(o.Name, "optimizer.inRange[") || strings.HasPrefix(o.Name, "optimizer.inArray[") {
 		neg := ""
 		if strings.Contains(o.Name, "[not-in]") {
